@@ -9,6 +9,7 @@ import (
 	"reflect"
 	"strings"
 	"sync"
+	"sync/atomic"
 	"time"
 
 	"github.com/datastax/go-cassandra-native-protocol/message"
@@ -259,6 +260,48 @@ func c14History(c *Ctx, idx int) {
 			if !barrier() {
 				return
 			}
+		case x >= 68 && x < 72 && hosts >= 3 && len(beds) == 1:
+			shape.WriteString("v")
+			// a node of an older release: the host the proxy tries first when its control connection fails over only speaks
+			// v3 now, so the proxy has to turn that connection down (it registered on it already) and move on; the turned-down
+			// connection must not stay behind as a second source of events
+			if !barrier() {
+				return
+			}
+			ctl := bed.Cluster.EstablishedControlConns()
+			if len(ctl) != 1 {
+				break
+			}
+			// every host but one (the highest that does not serve the control connection) turns into an old-release node
+			survivor := hosts
+			if survivor == ctl[0].Host.Idx {
+				survivor--
+			}
+			for h := 1; h <= hosts; h++ {
+				if h != survivor {
+					atomic.StoreInt32(&bed.Cluster.Hosts[h-1].MaxVersion, 3)
+				}
+			}
+			for _, x := range bed.Cluster.ControlConns() {
+				x.Kill(false)
+			}
+			up := waitFor(func() bool {
+				for _, x := range bed.Cluster.EstablishedControlConns() {
+					if x.ID != ctl[0].ID {
+						return true
+					}
+				}
+				return false
+			}, 20*time.Second)
+			for h := 1; h <= hosts; h++ {
+				atomic.StoreInt32(&bed.Cluster.Hosts[h-1].MaxVersion, 0)
+			}
+			if !up {
+				r.Inconc("c14: control connection did not come back after a fail-over past an old-release node")
+				return
+			}
+			time.Sleep(10 * time.Millisecond)
+			r.Obs("failovers_past_an_old_release_node", 1)
 		case x >= 63 && x < 68 && len(clients) > len(beds):
 			shape.WriteString("R")
 			// an open client sends another REGISTER (any subset of types): registrations add up, a client that has registered
@@ -547,7 +590,7 @@ func runC14(c *Ctx) {
 	r := c.R
 	r.Assume("events are injected only on a control connection that is up; failover is forced between bursts")
 	r.Assume("EVENT frames are framed with the cluster's negotiated version whatever the client's version; content is compared after decoding")
-	r.Require("must_deliveries_checked", "topology_events_injected", "status_events_injected", "control_failovers", "zombie_rounds", "control_failovers_after_failed_refresh", "bursts_followed_by_control_close", "repeated_registers")
+	r.Require("must_deliveries_checked", "topology_events_injected", "status_events_injected", "control_failovers", "zombie_rounds", "control_failovers_after_failed_refresh", "bursts_followed_by_control_close", "repeated_registers", "failovers_past_an_old_release_node")
 	n := c.Pick(160, 15000)
 	for i := 0; i < n; i++ {
 		if c.Replay != nil && c.Replay["kind"] == "c14" {
